@@ -50,8 +50,58 @@ enum Fault {
     IdlePartialHeaderFin,
 }
 
+/// Echo handler that can also withhold a PREPARE and a USE, so that requests of other kinds are
+/// in flight on the connection when the fault hits.
+struct H10 {
+    echo: Arc<Echo>,
+    misc: std::sync::Mutex<Vec<(Rq, Option<String>)>>,
+}
+
+impl Handler for H10 {
+    fn intercept(&self, rq: Rq) -> Option<Rq> {
+        if let crate::wire::request::Request::Prepare { query } = &*rq.request {
+            if query.contains("pending") && *self.echo.mode.lock().unwrap() == EchoMode::Hold {
+                self.misc.lock().unwrap().push((rq, None));
+                return None;
+            }
+        }
+        Some(rq)
+    }
+    fn statement(&self, node: &MockNode, query: &str) -> Option<StatementDef> {
+        self.echo.statement(node, query)
+    }
+    fn on_request(&self, rq: Rq) {
+        self.echo.on_request(rq)
+    }
+    fn on_use(&self, rq: Rq, keyspace: String) {
+        if *self.echo.mode.lock().unwrap() == EchoMode::Hold {
+            self.misc.lock().unwrap().push((rq, Some(keyspace)));
+        } else {
+            rq.ack_keyspace(&keyspace);
+        }
+    }
+}
+
+impl H10 {
+    fn release_misc(&self) {
+        for (rq, ks) in std::mem::take(&mut *self.misc.lock().unwrap()) {
+            match ks {
+                Some(k) => rq.ack_keyspace(&k),
+                None => {
+                    let q = rq.query_text().unwrap_or("").to_string();
+                    let def = StatementDef::new(&q, &fw::hash_str(&q).to_be_bytes());
+                    rq.node.prepared.lock().unwrap().insert(def.id.clone(), Arc::new(def.clone()));
+                    reply_prepared(&rq, &def);
+                }
+            }
+        }
+    }
+}
+
 #[derive(Clone, Debug)]
 struct Case {
+    /// bit 0: a PREPARE is also in flight; bit 1: a USE is also in flight
+    misc: u8,
     fault: Fault,
     /// requests in flight
     k: usize,
@@ -72,6 +122,8 @@ struct CaseOut {
     quiet_hang: bool,
     /// a request issued AFTER the fault that never completed
     probe_hung: Option<u64>,
+    /// PREPARE / USE calls in flight at the fault that never returned
+    misc_hung: Vec<&'static str>,
 }
 
 fn echo_frame_len() -> usize {
@@ -94,7 +146,8 @@ async fn echo_op(session: Arc<Session>, prepared: Option<Arc<PreparedStatement>>
 async fn run_case(c: &Case) -> CaseOut {
     let mut rng = Rng::new(c.seed, 11);
     let echo = Echo::new(EchoMode::Immediate);
-    let cluster = MockCluster::start(single_node_spec(), echo.clone()).await;
+    let h10 = Arc::new(H10 { echo: echo.clone(), misc: std::sync::Mutex::new(Vec::new()) });
+    let cluster = MockCluster::start(single_node_spec(), h10.clone()).await;
     let log = cluster.log().clone();
     let fault = c.fault;
     let profile = ExecutionProfile::builder().request_timeout(None).build();
@@ -111,7 +164,7 @@ async fn run_case(c: &Case) -> CaseOut {
         Ok(s) => Arc::new(s),
         Err(e) => {
             cluster.shutdown();
-            return CaseOut { ops: vec![], recovered: None, log, build_error: Some(e), quiet_hang: false, probe_hung: None };
+            return CaseOut { ops: vec![], recovered: None, log, build_error: Some(e), quiet_hang: false, probe_hung: None, misc_hung: vec![] };
         }
     };
     let prepared = if c.prepared {
@@ -122,7 +175,7 @@ async fn run_case(c: &Case) -> CaseOut {
             }
             Err(e) => {
                 cluster.shutdown();
-                return CaseOut { ops: vec![], recovered: None, log, build_error: Some(format!("prepare: {e}")), quiet_hang: false, probe_hung: None };
+                return CaseOut { ops: vec![], recovered: None, log, build_error: Some(format!("prepare: {e}")), quiet_hang: false, probe_hung: None, misc_hung: vec![] };
             }
         }
     } else {
@@ -143,6 +196,15 @@ async fn run_case(c: &Case) -> CaseOut {
             out
         }));
     }
+    let mut misc_handles: Vec<(&'static str, tokio::task::JoinHandle<bool>)> = Vec::new();
+    if c.misc & 1 != 0 {
+        let s = session.clone();
+        misc_handles.push(("prepare", tokio::spawn(async move { s.prepare("SELECT pending FROM ks.echo WHERE id = 1").await.is_ok() })));
+    }
+    if c.misc & 2 != 0 {
+        let s = session.clone();
+        misc_handles.push(("use_keyspace", tokio::spawn(async move { s.use_keyspace("ks", false).await.is_ok() })));
+    }
     if fault == Fault::RstDuringWrites {
         // no settling: the kill races with the request writes
         tokio::time::sleep(Duration::from_micros(rng.below(400))).await;
@@ -154,7 +216,8 @@ async fn run_case(c: &Case) -> CaseOut {
     } else {
         let k = c.k;
         let e2 = echo.clone();
-        settle(&log, Duration::from_millis(80), Duration::from_secs(20), move || e2.held_count() >= k).await;
+        let (h2, want_misc) = (h10.clone(), (c.misc & 1) as usize + ((c.misc >> 1) & 1) as usize);
+        settle(&log, Duration::from_millis(80), Duration::from_secs(20), move || e2.held_count() >= k && h2.misc.lock().unwrap().len() >= want_misc).await;
     }
     let held = echo.take_held();
     let pool_conn = held.first().map(|(_, rq)| rq.conn.clone());
@@ -246,6 +309,8 @@ async fn run_case(c: &Case) -> CaseOut {
     }
     log.push(Ev::Note("fault-injected".into()));
     echo.set_mode(EchoMode::Immediate);
+    // the withheld PREPARE / USE get their answers now (on a dead connection they go nowhere)
+    h10.release_misc();
     // anything that was held but is neither answered nor on the dead connection gets its answer
     // (e.g. retried idempotent requests arriving on a new connection are answered at once)
     let fault_counter = log.counter();
@@ -259,6 +324,28 @@ async fn run_case(c: &Case) -> CaseOut {
             Ok(Ok(out)) => ops.push((ids[i], Some(out))),
             Ok(Err(_)) => ops.push((ids[i], Some(EchoOutcome::Err("task panicked".into())))),
             Err(_) => ops.push((ids[i], None)),
+        }
+    }
+    let mut misc_hung: Vec<&'static str> = Vec::new();
+    for (name, h) in misc_handles {
+        let left = deadline.saturating_duration_since(std::time::Instant::now()).max(Duration::from_millis(500));
+        if tokio::time::timeout(left, h).await.is_err() {
+            misc_hung.push(name);
+        }
+    }
+    if !misc_hung.is_empty() {
+        // same quiescence rule as for the echo requests: nothing may touch the dead connection any more
+        let dead_conn = pool_conn.as_ref().map(|c| c.id);
+        let c0 = log.counter();
+        tokio::time::sleep(Duration::from_secs(4)).await;
+        let touched = log.snapshot().iter().filter(|l| l.seq >= c0).any(|l| match &l.ev {
+            Ev::Recv { conn, request, .. } => Some(*conn) == dead_conn || matches!(&**request, crate::wire::request::Request::Prepare { query } if query.contains("pending")) || matches!(&**request, crate::wire::request::Request::Query { query, .. } if query.starts_with("USE")),
+            Ev::Send { conn, .. } | Ev::Close { conn, .. } => Some(*conn) == dead_conn,
+            _ => false,
+        });
+        if touched {
+            misc_hung.clear();
+            log.push(Ev::Note("misc watchdog fired while events were flowing".into()));
         }
     }
     if ops.iter().any(|(_, o)| o.is_none()) {
@@ -340,11 +427,11 @@ async fn run_case(c: &Case) -> CaseOut {
     }
     drop(session);
     cluster.shutdown();
-    CaseOut { ops, recovered, log, build_error: None, quiet_hang, probe_hung }
+    CaseOut { ops, recovered, log, build_error: None, quiet_hang, probe_hung, misc_hung }
 }
 
 fn judge(o: &mut Outcome, c: &Case, out: &CaseOut) {
-    let replay = json!({"fault": format!("{:?}", c.fault), "k": c.k, "m": c.m, "offset": c.offset, "prepared": c.prepared,
+    let replay = json!({"fault": format!("{:?}", c.fault), "k": c.k, "m": c.m, "offset": c.offset, "misc": c.misc, "prepared": c.prepared,
         "idempotent": c.idempotent, "seed": c.seed, "log_tail": out.log.tail_text(50)});
     if let Some(e) = &out.build_error {
         o.inconclusive(format!("case could not start: {e}"));
@@ -424,6 +511,19 @@ fn judge(o: &mut Outcome, c: &Case, out: &CaseOut) {
     if c.fault == Fault::NegativeStreamBenign && err > 0 {
         o.violation("c10:negative-stream-frame-not-ignored", format!("{err} of {} requests failed after the node sent frames on negative stream ids (which must be ignored)", c.k), replay.clone());
     }
+    for name in &out.misc_hung {
+        o.violation(
+            format!("c10:inflight-{name}-hangs:{:?}", c.fault),
+            format!("a {name} call was in flight when the connection suffered {:?}; it never returned although nothing touched its connection any more", c.fault),
+            replay.clone(),
+        );
+    }
+    if c.misc & 1 != 0 {
+        o.class("inflight:PREPARE");
+    }
+    if c.misc & 2 != 0 {
+        o.class("inflight:USE");
+    }
     if let Some(id) = out.probe_hung {
         o.violation(
             format!("c10:request-after-fault-hangs:{:?}", c.fault),
@@ -453,22 +553,16 @@ fn cases(ctx: &Ctx, rng: &mut Rng) -> Vec<Case> {
     let fl = echo_frame_len();
     let mut v = Vec::new();
     let mut push = |fault, k, m, offset, rng: &mut Rng| {
-        v.push(Case { fault, k, m, offset, prepared: rng.bool(), idempotent: rng.chance(1, 4), seed: rng.u64() });
+        let misc = if rng.chance(1, 4) { rng.range(1, 3) as u8 } else { 0 };
+        v.push(Case { misc, fault, k, m, offset, prepared: rng.bool(), idempotent: rng.chance(1, 4), seed: rng.u64() });
     };
     let quick = ctx.quick();
     // every cut offset of the response stream
-    let ms: &[usize] = if quick { &[1, 3] } else { &[1, 2, 3, 5] };
+    let ms: &[usize] = if quick { &[1, 2, 3] } else { &[1, 2, 3, 4, 5] };
     for &m in ms {
         for offset in 0..=(m * fl) {
             let inside_first = offset <= fl;
             for fault in [Fault::CutFin, Fault::CutRst] {
-                // quick: every offset with FIN; RST for the first frame and then every 3rd offset
-                if quick && fault == Fault::CutRst && !inside_first && offset % 3 != 0 {
-                    continue;
-                }
-                if quick && m == 3 && fault == Fault::CutFin && offset > fl && offset % 2 == 1 && offset % fl > 12 {
-                    continue;
-                }
                 let k = if offset % 41 == 7 { 300 } else if offset % 3 == 0 { m.max(7) } else { m };
                 push(fault, k, m, offset, rng);
             }
@@ -524,6 +618,7 @@ pub fn run(ctx: &Ctx) -> Outcome {
             _ => Fault::RstDuringWrites,
         };
         let c = Case {
+            misc: r["misc"].as_u64().unwrap_or(0) as u8,
             fault,
             k: r["k"].as_u64().unwrap_or(1) as usize,
             m: r["m"].as_u64().unwrap_or(1) as usize,
@@ -587,6 +682,8 @@ pub fn run(ctx: &Ctx) -> Outcome {
         "fault:RstDuringWrites",
         "fault:IdleFin",
         "fault:IdlePartialHeaderFin",
+        "inflight:PREPARE",
+        "inflight:USE",
         "recovered",
     ] {
         out.require_class(c);
